@@ -67,8 +67,18 @@ class Module:
         self.modname = modname
         self.src = src
         self.tree = ast.parse(src, filename=relpath)
-        from . import alpha
+        from . import alpha, canon
+        # semantics-preserving canonicalisation: inline functions / locals the reference tree does not have,
+        # rename locals back to the reference names (see vk/canon.py, vk/alpha.py)
+        self.idioms = canon.normalise_idioms(self.tree)
+        self.canon, self.canon_refused = canon.canonicalise(relpath, self.tree)
         self.renames = alpha.normalise(relpath, self.tree)
+        more = canon.inline_new_locals(relpath, self.tree)
+        if more:
+            self.canon += more
+            self.renames += alpha.normalise(relpath, self.tree)
+        if self.canon:
+            self.tree = _renumber(self.tree)
         self.imports = {}     # local alias -> fully qualified dotted name
         self.functions = {}   # qualname -> FunctionInfo
         self.classes = {}     # name -> ClassInfo
@@ -367,8 +377,10 @@ class Program:
         nf = sum(len(m.functions) for m in self.modules.values())
         nc = sum(len(m.classes) for m in self.modules.values())
         rn = sum(len(m.renames) for m in self.modules.values())
+        cn = sum(len(m.canon) for m in self.modules.values())
         return {"modules": len(self.modules), "functions": nf, "classes": nc,
-                "excluded": sorted(self.excluded), "locals_alpha_normalised": rn}
+                "excluded": sorted(self.excluded), "locals_alpha_normalised": rn,
+                "inline_rewrites": cn}
 
 
 POOL_PRIMS = {"map", "imap", "imap_unordered", "uimap", "amap", "map_async", "starmap",
@@ -453,7 +465,24 @@ def assigned_names(target):
 
 
 def loc(fi, node):
-    return f"{fi.module.relpath}:{getattr(node, 'lineno', '?')}"
+    return f"{fi.module.relpath}:{getattr(node, '_src_line', getattr(node, 'lineno', '?'))}"
+
+
+def _renumber(tree):
+    """after inlining, statements carry the line numbers of the place they were copied from, so `lineno` is no
+    longer monotonic in execution order.  Re-parse the unparsed tree (fresh, monotonic positions) and remember the
+    line of the file on disk in `_src_line` for reports."""
+    try:
+        new = ast.parse(ast.unparse(tree))
+    except Exception:
+        return tree
+    a, b = list(ast.walk(tree)), list(ast.walk(new))
+    if len(a) != len(b) or any(type(x) is not type(y) for x, y in zip(a, b)):
+        return tree
+    for x, y in zip(a, b):
+        if hasattr(x, "lineno"):
+            y._src_line = getattr(x, "_src_line", x.lineno)
+    return new
 
 
 def undefined_names(prog, fi):
